@@ -292,7 +292,17 @@ func checkC18(c *Ctx) {
 	if handler != nil {
 		okH := true
 		for _, e := range p.In[handler] {
-			if !c.isProcessFn(e.Caller, "oracle") {
+			if c.isProcessFn(e.Caller, "oracle") {
+				continue
+			}
+			// a forwarding wrapper (recover boundary) whose only callers are process functions
+			fw := len(p.In[e.Caller]) > 0
+			for _, e2 := range p.In[e.Caller] {
+				if !c.isProcessFn(e2.Caller, "oracle") {
+					fw = false
+				}
+			}
+			if !fw {
 				okH = false
 			}
 		}
